@@ -65,10 +65,56 @@ PROPS = {
 }
 
 
+PROPS['C20'] = {
+    'theorems': ['RQ.C20_phase1', 'RQ.C20_applyModify', 'RQ.C20_file'],
+    'jobs': [{'quick': ['fuzzpair', 'seed={seed}', 'n=40000'],
+              'thorough': ['fuzzpair', 'seed={seed}', 'n=1000000', 'maxlen=12', 'hunks=4']}],
+    'nontrivial': lambda l: 'A(' in l.split('|=>|')[-1].split('|')[0] and 'F(' not in l.split('|=>|')[-1].split('|')[0],
+    'histogram': lambda c, d: ['pair:' + (re.search(r'C20=(\w+)', d).group(1) if re.search(r'C20=(\w+)', d) else '?')],
+    'rule': "generated: file of 0-9 lines over a 2/3-letter alphabet, one file patch as for C02/C03 (cut hunks with corrupted "
+            "context, random hunks, create/delete), applied by the real code with fuzz limit F in 0..2 and again with "
+            "F' = F+1..F+3. distinct = hash of input; non-trivial = the application with limit F succeeded completely "
+            "(only then the property says something)",
+    'explanation': "Theorem C20_file: for every file patch, direction, file and F <= F', if apply with limit F succeeds "
+                   "completely then apply with F' yields the identical file (and identical hunk reports for Modify). "
+                   "The same implication is evaluated on pairs of real TextFilePatch::apply runs; model output compared on both.",
+    'assumptions': ["file-patch level; the series level follows because a push applies file patches one after another with the same limit"],
+}
+
+
+PROPS['C02'] = {
+    'theorems': ['RQ.key_le_iff', 'RQ.specPlace_some', 'RQ.specPlace_none', 'RQ.C02_place', 'RQ.C02_monotone',
+                 'RQ.C02_hunk', 'RQ.C02_applyModify', 'RQ.C02_fuzz0'],
+    'jobs': APPLY_JOBS,
+    'nontrivial': apply_nontrivial,
+    'histogram': apply_hist,
+    'rule': APPLY_RULE,
+    'explanation': "Theorems: findPlace (first guess + forward/backward interleaved scan) = specPlace (brute force over all "
+                   "positions: admissible, matching, least key = nearest to stated line + previous offset, forward wins ties; "
+                   "anchored views only at their anchor); C02_hunk: the fuzz loop's report satisfies hunkOK (lowest acceptable "
+                   "level; failed-for-no-match => no admissible match at any permitted level, via C02_monotone); "
+                   "C02_applyModify threads offset / frozen line over all hunks. reportsOK is evaluated on the real reports.",
+    'assumptions': ["hunks are well-formed (context counts within side lengths)",
+                    "'expected line' read as stated line + previous hunk's offset, exactly as the property words it"],
+}
+PROPS['C04'] = {
+    'theorems': ['RQ.C04_file', 'RQ.C04_modify', 'RQ.C04_stack'],
+    'jobs': APPLY_JOBS,
+    'nontrivial': apply_nontrivial,
+    'histogram': apply_hist,
+    'rule': APPLY_RULE + "; every case rolls the whole stack back in LIFO order with the real TextFilePatch::rollback",
+    'explanation': "Theorem C04_file: for every file patch (Modify/Create/Delete, mode change), direction, fuzz, file: if apply "
+                   "returns (f', report) then rollback report f' = some f - no panic, same content, deleted flag, permissions. "
+                   "C04_stack: any stack undone in reverse order restores the start. On the implementation: state after each "
+                   "rollback equals the state before the corresponding apply; no panic outcome.",
+    'assumptions': ["hunks are well-formed", "rename-level undo (ModifiedFiles::rollback, move_in/move_out) is part of the driver model (C05), not of this check"],
+}
+
+
 def replay_engine(path):
     first = ''
     for l in open(path):
         if l and not l.startswith('#'):
             first = l
             break
-    return {'A': 'apply-replay'}.get(first.split('|')[0], 'apply-replay')
+    return {'A': 'apply-replay', 'T': 'fuzzpair-replay', 'D': 'dist-replay'}.get(first.split('|')[0], 'apply-replay')
